@@ -19,12 +19,21 @@
  *                                                            return short (mode 0) / nothing (mode 1)
  *   c04_faults own <file> <garbagefile>                   stream-ownership scenarios
  *   c04_faults tempfault <file>                           mkstemp / fdopen failing inside make_temp_file
+ *   c04_faults rescan <mode|cflags|scan> <playing> <file> <kfrom> <kto> <stride>   every allocator call of a rescan fails
+ *   c04_faults closefault <load|test> <path|file|cb> <file>   the j-th fclose of the call reports failure (for every j);
+ *                                                            cb: the close callback returns -1
+ *   c04_faults smixfaults <scenario> mem <module> <kfrom> <kto> <stride> <good.wav> <trunc.wav> <garbage>
+ *        scenario = start | restart | load | reload | loadhdr | loadshort | loadrange | startinval | end |
+ *                   startplaying | endplaying: xmp_start_smix / xmp_smix_load_sample / xmp_end_smix after a
+ *                   prelude, every allocation index; `trace smix` ledger lines for the Lean model
  *
  * Output, one line per case (stdout), all fields key=value:
  *   base ...   the unfaulted run (allocator calls N, return codes, digests)
  *   k ...      one faulted run: fired, rc, state, residue, fd, tmp, file, closes, reuse, leaks
  *   leak ...   one line per leaked/residual block: site=<file>:<function>
  *   trace ...  context-level ledger lines compared with the Lean model (drv_c04)
+ *   fcase/pre/ext/post/fend   member-level image of the context before and after a failed xmp_start_player
+ *              (post: only the members that changed), compared with XmpModel.StartFail
  *   viol <signature> <text>    the property oracle failed
  */
 #include "vcommon.h"
@@ -46,6 +55,7 @@
 #include <sanitizer/lsan_interface.h>
 #include <sanitizer/common_interface_defs.h>
 #include <sanitizer/allocator_interface.h>
+#include "c06_image.h"	/* complete image of struct context_data (leaf list generated from the headers) */
 
 /* ------------------------------------------------------------------ */
 /* allocation tracker                                                  */
@@ -237,10 +247,16 @@ void __wrap_free(void *p)
 	__real_free(p);
 }
 
+static int fc_count, fc_fired, fc_double, nclosed;
+
 static void win_begin(int fail_at)
 {
 	win_gen++;
 	win_count = 0;
+	fc_count = 0;
+	fc_fired = 0;
+	fc_double = 0;
+	nclosed = 0;
 	win_fail_at = fail_at;
 	win_fired = 0;
 	win_on = 1;
@@ -250,6 +266,57 @@ static void win_end(void)
 {
 	win_on = 0;
 	win_fail_at = -1;
+}
+
+/* ---- fclose fault injection: the j-th fclose inside a window closes the stream and reports failure.
+ * Every FILE closed inside the window is remembered; a second fclose of the same FILE (before an fopen /
+ * fdopen hands the address out again) is a double close: it is counted and NOT passed on to libc. ---- */
+int __real_fclose(FILE *);
+FILE *__real_fopen(const char *, const char *);
+#define MAXCLOSED 64
+static FILE *closed_files[MAXCLOSED];
+static int fc_fail_at = -1;
+
+static void closed_forget(FILE *f)
+{
+	int i;
+	for (i = 0; i < nclosed; i++)
+		if (closed_files[i] == f)
+			closed_files[i] = closed_files[--nclosed];
+}
+
+int __wrap_fclose(FILE *f)
+{
+	int i, idx, rc;
+	if (!win_on)
+		return __real_fclose(f);
+	for (i = 0; i < nclosed; i++) {
+		if (closed_files[i] == f) {
+			fc_double++;
+			errno = EBADF;
+			return EOF;
+		}
+	}
+	idx = fc_count++;
+	win_on = 0;
+	rc = __real_fclose(f);
+	win_on = 1;
+	if (nclosed < MAXCLOSED)
+		closed_files[nclosed++] = f;
+	if (idx == fc_fail_at) {
+		fc_fired = 1;
+		errno = EIO;
+		return EOF;
+	}
+	return rc;
+}
+
+FILE *__wrap_fopen(const char *path, const char *mode)
+{
+	FILE *f = __real_fopen(path, mode);
+	if (f != NULL)
+		closed_forget(f);
+	return f;
 }
 
 static int live_in_gen(int gen)
@@ -466,6 +533,7 @@ struct cbsrc {
 	int fail_mode;		/* 0: short read (partial), 1: nothing */
 	int tell_fails;
 	int seek_fails;
+	int close_rc;		/* what the close callback returns */
 };
 
 static unsigned long cb_read(void *dest, unsigned long len, unsigned long nmemb, void *priv)
@@ -527,7 +595,7 @@ static int cb_close(void *priv)
 {
 	struct cbsrc *c = (struct cbsrc *)priv;
 	c->closes++;
-	return 0;
+	return c->close_rc;
 }
 
 struct source {
@@ -539,6 +607,7 @@ struct source {
 	struct cbsrc cb;
 	long cb_fail_from;
 	int cb_fail_mode;
+	int cb_close_rc;
 };
 
 static int parse_entry(const char *s)
@@ -569,6 +638,7 @@ static int src_prepare(struct source *s)
 		s->cb.size = s->size;
 		s->cb.fail_from = s->cb_fail_from;
 		s->cb.fail_mode = s->cb_fail_mode;
+		s->cb.close_rc = s->cb_close_rc;
 	}
 	return 0;
 }
@@ -648,13 +718,13 @@ enum {
 	K_MIXBUF, K_MIXBUF32, K_VOICE, K_PAULA, K_VIRTCH, K_FLOWLOOP, K_XCDATA, K_CHEXTRA,
 	K_XXT, K_TRACK, K_XXP, K_PATTERN, K_XXI, K_SUB, K_INSEXTRA, K_XXS, K_SMPDATA, K_XTRA, K_MIDI,
 	K_SCANCNT, K_SCANROW, K_SCAN, K_COMMENT, K_DIRNAME, K_BASENAME, K_MODEXTRA, K_MODEXTRA_TAB,
-	K_MODEXTRA_ENT, K_OTHER, K_NKINDS
+	K_MODEXTRA_ENT, K_SMIXXXI, K_SMIXXXS, K_SMIXSUB, K_SMIXDATA, K_OTHER, K_NKINDS
 };
 static const char *const kind_name[K_NKINDS] = {
 	"mixBuffer", "mixBuf32", "voiceArray", "paula", "virtChannel", "flowLoop", "xcData", "chanExtra",
 	"xxt", "track", "xxp", "pattern", "xxi", "sub", "insExtra", "xxs", "smpData", "xtra", "midi",
 	"scanCnt", "scanRow", "scan", "comment", "dirname", "basename", "modExtra", "modExtraTab",
-	"modExtraEnt", "other"
+	"modExtraEnt", "smixXxi", "smixXxs", "smixSub", "smixData", "other"
 };
 
 /* snapshot: pointer -> kind (open-addressed map) */
@@ -920,6 +990,8 @@ struct base {
 
 static struct base base;
 static const char *g_wav;
+static int g_fcloses;		/* fclose calls inside the window of the last run_case */
+static int g_doubles, g_caller_closed;
 
 static void print_start_trace(struct context_data *ctx, int k, int rc, int gen, int prev_playing)
 {
@@ -933,6 +1005,33 @@ static void print_start_trace(struct context_data *ctx, int k, int rc, int gen, 
 	printf("\n");
 }
 
+/* member-level trace of a failed start: complete image before, changed members after */
+static void print_fail_image(struct context_data *c, const struct c06_image *pre, const char *opname, int k, int rate, int fmt)
+{
+	struct c06_image post;
+	struct xmp_module *mod = &c->m.mod;
+	int i, kk;
+	c06_image_take(c, &post);
+	printf("fcase %s-k%d %d %d %d %d %d %d %d\n", opname, k, base.amiga, base.extras, base.maxvoc, base.virtch, k, rate, fmt);
+	c06_print_image(stdout, "pre", pre);
+	printf("ext patrows");
+	for (i = 0; i < mod->pat && i < 257; i++)
+		printf(" %d", (mod->xxp && mod->xxp[i]) ? mod->xxp[i]->rows : 0);
+	printf("\n");
+	printf("ext scan0num %d\n", c->p.scan ? c->p.scan[0].num : 0);
+	for (i = 0; i < pre->n && i < post.n; i++) {
+		const struct c06_ent *x = &pre->e[i], *y = &post.e[i];
+		int diff = 0;
+		for (kk = 0; kk < x->n && kk < y->n; kk++)
+			if (x->v[kk] != y->v[kk] && !(x->leaf->kind == K_PTR && kk > 0))
+				diff = 1;
+		if (diff)
+			c06_print_ent(stdout, "post", y);
+	}
+	printf("fend\n");
+	c06_image_free(&post);
+}
+
 /* one run of <op> with allocation k failing (k < 0: no fault).  Returns the
  * number of property violations seen.  If isbase, fills `base`. */
 static int run_case(int op, struct source *src, int k, int isbase)
@@ -944,6 +1043,8 @@ static int run_case(int op, struct source *src, int k, int isbase)
 	int rc = 0, fired, state, fd0, fd1, tmp0, tmp1, residue = 0, leaks, viol = 0, ownbad = 0;
 	int gen, expect_state, reuse_ok = 1, n, prc = 0, rc2 = 0;
 	uint64_t md = 0, pd = 0;
+	struct c06_image pre_img;
+	int have_pre = 0;
 	const char *opname = op == OP_LOAD ? "load" : op == OP_TEST ? "test" : op == OP_SMIXLOAD ? "smixload" :
 			     op == OP_SMIXSTART ? "smixstart" : "start";
 
@@ -997,6 +1098,10 @@ static int run_case(int op, struct source *src, int k, int isbase)
 			rel_evaluate("free", 0);
 			return 0;
 		}
+		if (!isbase) {
+			c06_image_take(c, &pre_img);
+			have_pre = 1;
+		}
 		win_begin(k);
 		rc = xmp_start_player(ctx, 22050, 0);
 		win_end();
@@ -1027,6 +1132,16 @@ static int run_case(int op, struct source *src, int k, int isbase)
 	gen = win_gen;
 	n = win_count;
 	fired = win_fired;
+	g_fcloses = fc_count;
+	g_doubles = fc_double;
+	g_caller_closed = 0;
+	if (src->entry == E_FILE && src->f != NULL) {
+		int q;
+		for (q = 0; q < nclosed; q++)
+			g_caller_closed += closed_files[q] == src->f;
+	}
+	if (fc_fail_at >= 0)
+		fired = fc_fired;
 	rel_evaluate(rc < 0 ? "fail" : "ok", 1);
 	viol += rel_problems;
 	rel_problems = 0;
@@ -1043,6 +1158,56 @@ static int run_case(int op, struct source *src, int k, int isbase)
 			base.virtch = c->p.virt.virt_channels;
 		}
 		print_start_trace(c, k, rc, gen, op == OP_RESTART);
+		if (have_pre && rc < 0 && fired)
+			print_fail_image(c, &pre_img, op == OP_RESTART ? "restart" : op == OP_STARTSMIX ? "startsmix" : "start", k,
+					 22050, 0);
+		if (rc < 0) {
+			/* the members that are NULL / 0 whenever a context is not playing (C06's idle invariant) */
+			struct xmp_frame_info fi;
+			struct player_data *p = &c->p;
+			xmp_get_frame_info(ctx, &fi);
+			if (p->virt.virt_channels || p->virt.virt_used || p->virt.maxvoc || p->virt.num_tracks) {
+				printf("viol residue:virt_counts after the failed xmp_start_player (rc=%d, state %d) virt_channels=%d "
+				       "maxvoc=%d num_tracks=%d virt_used=%d with voice_array=%s; xmp_get_frame_info reports virt_channels=%d\n",
+				       rc, c->state, p->virt.virt_channels, p->virt.maxvoc, p->virt.num_tracks, p->virt.virt_used,
+				       p->virt.voice_array ? "set" : "NULL", fi.virt_channels);
+				viol++;
+			}
+			if (p->xc_data || c->s.buffer || c->s.buf32 || p->virt.voice_array || p->virt.virt_channel || p->flow.loop) {
+				printf("viol residue:player_pointers after the failed xmp_start_player (rc=%d) a player pointer is not NULL "
+				       "(xc_data=%d buffer=%d buf32=%d voice_array=%d virt_channel=%d flow.loop=%d)\n", rc, p->xc_data != NULL,
+				       c->s.buffer != NULL, c->s.buf32 != NULL, p->virt.voice_array != NULL, p->virt.virt_channel != NULL,
+				       p->flow.loop != NULL);
+				viol++;
+			}
+		}
+	}
+	if (have_pre)
+		c06_image_free(&pre_img);
+	if (op == OP_START && !isbase && rc < 0 && fired && base.n > 0) {
+		/* a second faulted start on the residue of the first (reuse theorem C04_reusable_start) */
+		int k2 = (k * 5 + 1) % base.n, rcs, cnt[K_NKINDS], g2;
+		win_begin(k2);
+		rcs = xmp_start_player(ctx, 22050, 0);
+		win_end();
+		g2 = win_gen;
+		snap_clear();
+		snap_player(c);
+		classify_live(g2, cnt);
+		printf("trace start2 amiga=%d extras=%d maxvoc=%d virtch=%d k=%d k2=%d rc=%s state=%d nalloc=%d", base.amiga,
+		       base.extras, base.maxvoc, base.virtch, k, k2, rcs < 0 ? "neg" : "0", c->state, win_count);
+		print_counts("live", cnt);
+		printf("\n");
+		if (rcs < 0 && live_in_gen(g2) > 0) {
+			report_live("residue", g2, tag);
+			viol++;
+		}
+		if (rcs < 0 && c->state != XMP_STATE_LOADED) {
+			printf("viol state:start after a second failed start (rc=%d) the state is %d\n", rcs, c->state);
+			viol++;
+		}
+		if (rcs == 0)
+			xmp_end_player(ctx);
 	}
 
 	/* ---- the property, evaluated on what the real code just did ---- */
@@ -1076,6 +1241,11 @@ static int run_case(int op, struct source *src, int k, int isbase)
 			printf("viol own:close_callback close callback called %d times (rc=%d)\n", src->cb.closes, rc);
 			viol++;
 		}
+	}
+	if (fc_double > 0) {
+		printf("viol own:double_fclose the library called fclose %d more time(s) on a FILE it had already closed "
+		       "(fclose #%d reported failure, rc=%d)\n", fc_double, fc_fail_at, rc);
+		viol++;
 	}
 	if (op == OP_TEST && rc == 0)
 		md = fnv1a(fnv1a(FNV_INIT, ti.name, strlen(ti.name)), ti.type, strlen(ti.type));
@@ -1169,6 +1339,354 @@ static int run_case(int op, struct source *src, int k, int isbase)
 	       own[0] ? own : "own=na", reuse_ok, (unsigned long long)md, (unsigned long long)pd, viol);
 	fflush(stdout);
 	return viol;
+}
+
+/* ------------------------------------------------------------------ */
+/* sound-effect mixer calls (smix.c): fault enumeration + ledger trace */
+/* ------------------------------------------------------------------ */
+
+enum { SC_START, SC_RESTART, SC_LOAD, SC_RELOAD, SC_LOADHDR, SC_LOADSHORT, SC_LOADRANGE, SC_STARTINVAL, SC_END,
+       SC_STARTPLAYING, SC_ENDPLAYING, SC_N };
+static const char *const sc_name[SC_N] = { "start", "restart", "load", "reload", "loadhdr", "loadshort", "loadrange",
+					    "startinval", "end", "startplaying", "endplaying" };
+static const char *sm_good, *sm_trunc, *sm_garbage;
+static void src_init(struct source *s, int entry, const char *path);
+
+static void snap_smix(struct context_data *ctx)
+{
+	struct smix_data *sx = &ctx->smix;
+	int i;
+	snap_add(sx->xxi, K_SMIXXXI);
+	snap_add(sx->xxs, K_SMIXXXS);
+	if (sx->xxi != NULL)
+		for (i = 0; i < sx->ins; i++)
+			snap_add(sx->xxi[i].sub, K_SMIXSUB);
+	if (sx->xxs != NULL)
+		for (i = 0; i < sx->smp; i++)
+			if (sx->xxs[i].data != NULL)
+				snap_add(sx->xxs[i].data - 4, K_SMIXDATA);
+}
+
+/* what has to be there before the faulted call; returns < 0 if it cannot be set up */
+static int smix_prelude(xmp_context ctx, int scn)
+{
+	switch (scn) {
+	case SC_START:
+	case SC_STARTINVAL:
+		return 0;
+	case SC_RESTART:
+	case SC_RELOAD:
+	case SC_END:
+		if (xmp_start_smix(ctx, 1, 2) < 0)
+			return -1;
+		return xmp_smix_load_sample(ctx, 0, sm_good);
+	case SC_STARTPLAYING:
+	case SC_ENDPLAYING:
+		if (xmp_start_smix(ctx, 1, 2) < 0 || xmp_smix_load_sample(ctx, 0, sm_good) < 0)
+			return -1;
+		return xmp_start_player(ctx, 22050, 0);
+	default:
+		return xmp_start_smix(ctx, 1, 2);
+	}
+}
+
+static int smix_op(xmp_context ctx, int scn)
+{
+	switch (scn) {
+	case SC_START:
+	case SC_RESTART:
+	case SC_STARTPLAYING:
+		return xmp_start_smix(ctx, 2, 3);
+	case SC_STARTINVAL:
+		return xmp_start_smix(ctx, XMP_MAX_CHANNELS + 1, 3);
+	case SC_LOAD:
+	case SC_RELOAD:
+		return xmp_smix_load_sample(ctx, 0, sm_good);
+	case SC_LOADHDR:
+		return xmp_smix_load_sample(ctx, 0, sm_garbage);
+	case SC_LOADSHORT:
+		return xmp_smix_load_sample(ctx, 0, sm_trunc);
+	case SC_LOADRANGE:
+		return xmp_smix_load_sample(ctx, 5, sm_good);
+	default:
+		xmp_end_smix(ctx);
+		return 0;
+	}
+}
+
+/* start, trigger the external sample of slot 0 if there is one, play, digest */
+static int smix_play_digest(xmp_context ctx, uint64_t *out)
+{
+	struct context_data *c = CTX(ctx);
+	struct xmp_frame_info fi;
+	uint64_t h = FNV_INIT;
+	int i, rc, was_playing = c->state == XMP_STATE_PLAYING;
+	libxmp_set_random(&c->rng, 20260930u);
+	if (!was_playing) {
+		rc = xmp_start_player(ctx, 22050, 0);
+		if (rc < 0)
+			return rc;
+	}
+	if (c->smix.ins > 0 && c->smix.chn > 0 && c->smix.xxi != NULL && c->smix.xxi[0].sub != NULL)
+		xmp_smix_play_sample(ctx, 0, 60, 64, 0);
+	for (i = 0; i < 4; i++) {
+		rc = xmp_play_frame(ctx);
+		if (rc < 0)
+			break;
+		xmp_get_frame_info(ctx, &fi);
+		h = fnv1a(h, &fi.buffer_size, sizeof(int));
+		h = fnv1a(h, fi.buffer, fi.buffer_size);
+	}
+	h = fnv1a(h, &c->smix.chn, sizeof(int) * 3);	/* chn ins smp */
+	xmp_end_player(ctx);
+	*out = h;
+	return 0;
+}
+
+/* digest of a fresh context brought to the state the scenario should be in: after the prelude only (the
+ * call failed; for `restart` the old tables are gone: no smix at all), or after prelude + unfaulted call */
+static int smix_reference(struct source *src, int scn, int after_ok, uint64_t *out)
+{
+	xmp_context ctx = xmp_create_context();
+	int rc = src_load(src, ctx);
+	rel_evaluate("ref", 1);
+	if (rc == 0 && !(scn == SC_RESTART && !after_ok))
+		rc = smix_prelude(ctx, scn);
+	if (rc == 0 && after_ok)
+		rc = smix_op(ctx, scn) < 0 ? -1 : 0;
+	if (rc == 0)
+		rc = smix_play_digest(ctx, out);
+	xmp_end_player(ctx);
+	xmp_end_smix(ctx);
+	xmp_free_context(ctx);
+	rel_evaluate("free", 0);
+	return rc;
+}
+
+struct smix_base {
+	int rc, n;
+	uint64_t dig_fail, dig_ok;
+	int have_fail, have_ok;
+};
+static struct smix_base sbase;
+
+static int run_smix_case(int scn, struct source *src, int k, int isbase)
+{
+	xmp_context ctx;
+	struct context_data *c;
+	struct smix_data before, after;
+	struct xmp_instrument *xxi_copy = NULL;
+	struct xmp_sample *xxs_copy = NULL;
+	int rc, fired, n, g0, g1, viol = 0, residue = 0, leaks, fd0, fd1, fdb, fda, lost = 0, i, subs = 0, datas = 0;
+	int cnt[K_NKINDS], reuse_ok = 1, prc, tmp0, tmp1, atomic_expected;
+	uint64_t pd = 0;
+	char tag[64];
+
+	track_reset();
+	snprintf(tag, sizeof(tag), "k=%d", k);
+	fd0 = count_fds();
+	tmp0 = count_tmp();
+	ctx = xmp_create_context();
+	c = CTX(ctx);
+	src_prepare(src);
+	if (src_load(src, ctx) < 0) {
+		printf("skip module does not load\n");
+		xmp_free_context(ctx);
+		rel_evaluate("free", 0);
+		return 0;
+	}
+	rel_evaluate("preload", 1);
+	win_begin(-1);
+	rc = smix_prelude(ctx, scn);
+	win_end();
+	g0 = win_gen;
+	if (rc < 0) {
+		printf("skip smix setup failed\n");
+		xmp_end_player(ctx);
+		xmp_end_smix(ctx);
+		xmp_free_context(ctx);
+		rel_evaluate("free", 0);
+		return 0;
+	}
+	before = c->smix;
+	if (before.xxi != NULL && before.ins > 0) {
+		xxi_copy = (struct xmp_instrument *)__real_malloc(sizeof(*xxi_copy) * before.ins);
+		memcpy(xxi_copy, before.xxi, sizeof(*xxi_copy) * before.ins);
+	}
+	if (before.xxs != NULL && before.smp > 0) {
+		xxs_copy = (struct xmp_sample *)__real_malloc(sizeof(*xxs_copy) * before.smp);
+		memcpy(xxs_copy, before.xxs, sizeof(*xxs_copy) * before.smp);
+	}
+	fdb = count_fds();
+
+	win_begin(k);
+	rc = smix_op(ctx, scn);
+	win_end();
+	g1 = win_gen;
+	n = win_count;
+	fired = win_fired;
+	fda = count_fds();
+	after = c->smix;
+
+	/* ---- ledger trace (compared with Xmp.Resource.startSmix / smixLoadSample / endSmix) ---- */
+	snap_clear();
+	snap_smix(c);
+	snap_player(c);
+	memset(cnt, 0, sizeof(cnt));
+	for (i = 0; i < nrecs; i++) {
+		int sidx;
+		if (!recs[i].live || (recs[i].gen != g0 && recs[i].gen != g1))
+			continue;
+		sidx = snap_lookup(recs[i].p);
+		if (sidx < 0)
+			lost++;
+		else if (snap_k[sidx] > K_CHEXTRA)	/* the player blocks of the `…playing` preludes are not smix's */
+			cnt[snap_k[sidx]]++;
+	}
+	if (after.xxi != NULL)
+		for (i = 0; i < after.ins; i++)
+			subs += after.xxi[i].sub != NULL;
+	if (after.xxs != NULL)
+		for (i = 0; i < after.smp; i++)
+			datas += after.xxs[i].data != NULL;
+	printf("trace smix scn=%s k=%d rc=%s nalloc=%d xxi=%d xxs=%d chn=%d ins=%d subs=%d datas=%d", sc_name[scn], k,
+	       rc < 0 ? "neg" : "0", n, after.xxi != NULL, after.xxs != NULL, after.chn, after.ins, subs, datas);
+	print_counts("live", cnt);
+	printf(" lost=%d fds=%d\n", lost, fda - fdb);
+
+	/* ---- the property on what the real code just did ---- */
+	atomic_expected = rc < 0;
+	if (atomic_expected) {
+		int same;
+		if (scn == SC_RESTART && !(after.xxi == before.xxi && after.xxs == before.xxs)) {
+			/* the old tables were released first: the valid earlier state is "smix not started" */
+			same = after.xxi == NULL && after.xxs == NULL && after.chn == 0 && after.ins == 0 && after.smp == 0;
+		} else {
+			same = memcmp(&before, &after, sizeof(before)) == 0;
+			if (same && xxi_copy != NULL)
+				same = memcmp(xxi_copy, after.xxi, sizeof(*xxi_copy) * before.ins) == 0;
+			if (same && xxs_copy != NULL)
+				same = memcmp(xxs_copy, after.xxs, sizeof(*xxs_copy) * before.smp) == 0;
+		}
+		if (!same) {
+			printf("viol residue:smix:%s after the failed call (rc=%d) struct smix_data or a slot differs from what it "
+			       "was (xxi %d->%d xxs %d->%d chn %d->%d ins %d->%d)\n", sc_name[scn], rc, before.xxi != NULL,
+			       after.xxi != NULL, before.xxs != NULL, after.xxs != NULL, before.chn, after.chn, before.ins, after.ins);
+			viol++;
+		}
+		residue = live_in_gen(g1);
+		if (residue > 0) {
+			report_live("residue", g1, tag);
+			viol++;
+		}
+	} else if (rc > 0) {
+		printf("viol rc:positive:smix the call returned %d\n", rc);
+		viol++;
+	}
+	if (lost > 0) {
+		if (scn == SC_RELOAD && rc == 0)
+			printf("viol leak:smix:occupied_slot xmp_smix_load_sample into a loaded slot leaves %d blocks unreferenced\n", lost);
+		else
+			printf("viol leak:smix:%s %d blocks allocated by the smix calls are live but referenced by nothing\n",
+			       sc_name[scn], lost);
+		viol++;
+	}
+	if (fda != fdb) {
+		printf("viol fd:smix:%s descriptors before=%d after=%d\n", sc_name[scn], fdb, fda);
+		viol++;
+	}
+	if (c->state != (scn == SC_STARTPLAYING || scn == SC_ENDPLAYING ? XMP_STATE_PLAYING : XMP_STATE_LOADED)) {
+		printf("viol state:smix the state changed to %d\n", c->state);
+		viol++;
+	}
+	__real_free(xxi_copy);
+	__real_free(xxs_copy);
+
+	/* ---- the same context must behave like a fresh one brought to the same smix state ---- */
+	prc = smix_play_digest(ctx, &pd);
+	if (isbase) {
+		sbase.have_ok = rc >= 0 && smix_reference(src, scn, 1, &sbase.dig_ok) == 0;
+		sbase.have_fail = smix_reference(src, scn, 0, &sbase.dig_fail) == 0;
+	}
+	if (prc < 0) {
+		printf("viol reuse:smix:%s the player does not start after the call (rc=%d prc=%d)\n", sc_name[scn], rc, prc);
+		viol++;
+		reuse_ok = 0;
+	} else if (scn != SC_STARTPLAYING && scn != SC_ENDPLAYING) {
+		int have = rc < 0 ? sbase.have_fail : sbase.have_ok;
+		uint64_t want = rc < 0 ? sbase.dig_fail : sbase.dig_ok;
+		if (have && pd != want) {
+			printf("viol reuse:smix:%s after the %s call (rc=%d) the context plays differently from a fresh one in the "
+			       "same smix state\n", sc_name[scn], rc < 0 ? "failed" : "successful", rc);
+			viol++;
+			reuse_ok = 0;
+		}
+	}
+
+	xmp_end_player(ctx);
+	xmp_end_smix(ctx);
+	xmp_free_context(ctx);
+	rel_evaluate("free", 0);
+	viol += rel_problems;
+	rel_problems = 0;
+	src_finish(src);
+	leaks = live_in_gen(-1);
+	if (leaks > 0) {
+		report_live("leak", -1, tag);
+		viol++;
+	}
+	fd1 = count_fds();
+	tmp1 = count_tmp();
+	if (fd1 != fd0) {
+		printf("viol fd:smix:%s descriptors before=%d after=%d\n", sc_name[scn], fd0, fd1);
+		viol++;
+	}
+	if (isbase) {
+		sbase.rc = rc;
+		sbase.n = n;
+	}
+	if (viol > 0)
+		print_fault();
+	printf("%s op=smix-%s k=%d n=%d fired=%d rc=%d state=%d residue=%d leaks=%d fd=%d/%d tmp=%d/%d own=na reuse=%d mdig=%016llx pdig=%016llx viol=%d\n",
+	       isbase ? "base" : "k", sc_name[scn], k, n, fired, rc, c != NULL ? XMP_STATE_LOADED : 0, residue, leaks, fd0, fd1,
+	       tmp0, tmp1, reuse_ok, 0ULL, (unsigned long long)pd, viol);
+	fflush(stdout);
+	return viol;
+}
+
+/* c04_faults smixfaults <scenario> mem <module> <kfrom> <kto> <stride> <good.wav> <trunc.wav> <garbage> */
+static int cmd_smixfaults(int argc, char **argv)
+{
+	struct source src;
+	int scn, kfrom, kto, stride, k;
+	if (argc < 11)
+		return 2;
+	for (scn = 0; scn < SC_N; scn++)
+		if (!strcmp(argv[2], sc_name[scn]))
+			break;
+	if (scn == SC_N)
+		return 2;
+	src_init(&src, E_MEM, argv[4]);
+	kfrom = atoi(argv[5]);
+	kto = atoi(argv[6]);
+	stride = atoi(argv[7]);
+	if (stride < 1)
+		stride = 1;
+	sm_good = argv[8];
+	sm_trunc = argv[9];
+	sm_garbage = argv[10];
+	printf("begin op=smix-%s entry=mem file=%s\n", argv[2], argv[4]);
+	run_smix_case(scn, &src, -1, 1);
+	printf("stride s=%d n=%d\n", stride, sbase.n);
+	if (kfrom >= 0) {
+		if (kto < 0 || kto > sbase.n - 1)
+			kto = sbase.n - 1;
+		for (k = kfrom; k <= kto; k += stride)
+			run_smix_case(scn, &src, k, 0);
+	}
+	printf("end\n");
+	free(src.data);
+	return 0;
 }
 
 static int parse_op(const char *s)
@@ -1418,7 +1936,12 @@ FILE *__wrap_fdopen(int fd, const char *m)
 		errno = ENOMEM;
 		return NULL;
 	}
-	return __real_fdopen(fd, m);
+	{
+		FILE *f = __real_fdopen(fd, m);
+		if (f != NULL)
+			closed_forget(f);
+		return f;
+	}
 }
 
 static int cmd_tempfault(int argc, char **argv)
@@ -1436,6 +1959,271 @@ static int cmd_tempfault(int argc, char **argv)
 	tf_fail_mkstemp = tf_fail_fdopen = 0;
 	free(src.data);
 	printf("end\n");
+	return 0;
+}
+
+/* fclose() of a stream the library owns reports failure (the stream is closed all the same), for the j-th
+ * fclose of a load / test by path or FILE; and a close callback that returns an error */
+static int cmd_closefault(int argc, char **argv)
+{
+	struct source src;
+	int op, j, nf;
+	if (argc < 5)
+		return 2;
+	op = parse_op(argv[2]);
+	src_init(&src, parse_entry(argv[3]), argv[4]);
+	printf("begin op=closefault-%s entry=%s file=%s\n", argv[2], argv[3], argv[4]);
+	if (src.entry == E_CB) {
+		src.cb_close_rc = -1;
+		printf("case close_rc=-1\n");
+		run_case(op, &src, -1, 1);
+	} else {
+		const char *steps = argc > 5 ? argv[5] : "-";
+		fc_fail_at = -1;
+		run_case(op, &src, -1, 1);
+		nf = g_fcloses;
+		printf("fcloses n=%d\n", nf);
+		printf("trace closefail entry=%s j=-1 steps=%s fcloses=%d caller=%d\n", argv[3], steps, g_fcloses + g_doubles,
+		       g_caller_closed);
+		for (j = 0; j < nf; j++) {
+			fc_fail_at = j;
+			printf("case fclose=%d\n", j);
+			run_case(op, &src, -1, 0);
+			printf("trace closefail entry=%s j=%d steps=%s fcloses=%d caller=%d\n", argv[3], j, steps,
+			       g_fcloses + g_doubles, g_caller_closed);
+		}
+		fc_fail_at = -1;
+	}
+	printf("end\n");
+	free(src.data);
+	return 0;
+}
+
+/* rescans on a loaded / playing context: xmp_set_player(XMP_PLAYER_MODE | XMP_PLAYER_CFLAGS) and
+ * xmp_scan_module call libxmp_scan_sequences, which realloc()s p->scan (grow to mod->len entries, scan,
+ * shrink to the number of sequences) and may malloc a backup in compare_vblank_scan.  Every allocator
+ * call of the rescan is made to fail in turn.
+ *   c04_faults rescan <mode|cflags|scan> <playing 0|1> <file> <kfrom> <kto> <stride> */
+/* digest of what an untouched context (old mode) renders at the point where run_rescan_case plays on */
+static uint64_t rescan_reference(struct source *src, int playing)
+{
+	xmp_context ctx = xmp_create_context();
+	struct xmp_frame_info fi;
+	uint64_t pd = FNV_INIT;
+	int i;
+	src_prepare(src);
+	if (src_load(src, ctx) == 0) {
+		rel_evaluate("ref", 1);
+		libxmp_set_random(&CTX(ctx)->rng, 20260930u);
+		xmp_start_player(ctx, 22050, 0);
+		if (playing)
+			xmp_play_frame(ctx);
+		for (i = 0; i < 6; i++) {
+			if (xmp_play_frame(ctx) < 0)
+				break;
+			xmp_get_frame_info(ctx, &fi);
+			pd = fnv1a(pd, fi.buffer, fi.buffer_size);
+		}
+		xmp_end_player(ctx);
+	}
+	xmp_free_context(ctx);
+	rel_evaluate("free", 0);
+	src_finish(src);
+	return pd;
+}
+
+static int run_rescan_case(int which, int playing, struct source *src, int k, int isbase)
+{
+	static int base_n;
+	static uint64_t base_pd, base_old_pd;
+	int nold = 0, shrinkold = 0, mode0, keep[6];
+	xmp_context ctx;
+	struct context_data *c;
+	struct xmp_frame_info fi;
+	int rc, rcl, n, fired, gen, viol = 0, leaks, i, fd0, fd1, scan_blocks, nseq0, nseq1;
+	uint64_t pd = FNV_INIT;
+	void *scan0;
+	char tag[64];
+
+	track_reset();
+	snprintf(tag, sizeof(tag), "k=%d", k);
+	fd0 = count_fds();
+	ctx = xmp_create_context();
+	c = CTX(ctx);
+	src_prepare(src);
+	win_begin(-1);		/* the module's blocks are tracked too: the scan block is one of them */
+	rcl = src_load(src, ctx);
+	win_end();
+	rel_evaluate("preload", 1);
+	if (rcl < 0) {
+		printf("skip module does not load rc=%d\n", rcl);
+		xmp_free_context(ctx);
+		rel_evaluate("free", 0);
+		return 0;
+	}
+	libxmp_set_random(&c->rng, 20260930u);
+	if (playing) {
+		xmp_start_player(ctx, 22050, 0);
+		xmp_play_frame(ctx);
+	}
+	if (which == 0) {
+		/* what one unfaulted rescan under the current (old) mode allocates: xmp_set_player(MODE) rescans a second
+		 * time under the restored mode when the first rescan fails */
+		win_begin(-1);
+		xmp_scan_module(ctx);
+		win_end();
+		nold = win_count;
+		shrinkold = c->m.num_sequences < c->m.mod.len;
+	}
+	mode0 = c->p.mode;
+	keep[0] = c->m.c4rate;
+	keep[1] = c->m.quirk;
+	keep[2] = c->m.flow_mode;
+	keep[3] = c->m.read_event_type;
+	keep[4] = c->m.period_type;
+	keep[5] = c->m.compare_vblank;
+	scan0 = c->p.scan;
+	nseq0 = c->m.num_sequences;
+
+	win_begin(k);
+	switch (which) {
+	case 0:
+		rc = xmp_set_player(ctx, XMP_PLAYER_MODE, XMP_MODE_PROTRACKER);
+		break;
+	case 1:
+		rc = xmp_set_player(ctx, XMP_PLAYER_CFLAGS, xmp_get_player(ctx, XMP_PLAYER_CFLAGS) ^ XMP_FLAGS_VBLANK);
+		break;
+	default:
+		xmp_scan_module(ctx);
+		rc = 0;
+		break;
+	}
+	win_end();
+	gen = win_gen;
+	n = win_count;
+	fired = win_fired;
+	nseq1 = c->m.num_sequences;
+
+	/* ledger: exactly one live scan block, owned by p->scan; nothing else of the call is live */
+	scan_blocks = 0;
+	for (i = 0; i < nrecs; i++)
+		if (recs[i].live && recs[i].p == (void *)c->p.scan)
+			scan_blocks++;
+	printf("trace rescan which=%d playing=%d file=%s k=%d n=%d fired=%d rc=%s scan=%s owned=%d other=%d shrink=%d nold=%d shrinkold=%d mode=%s\n",
+	       which, playing, strrchr(src->path, '/') ? strrchr(src->path, '/') + 1 : src->path, k, n, fired,
+	       rc < 0 ? "neg" : "0", c->p.scan == scan0 ? "same" : "moved", scan_blocks,
+	       live_in_gen(gen) - (c->p.scan != scan0 ? scan_blocks : 0), nseq1 < c->m.mod.len, nold, shrinkold,
+	       mode0 == XMP_MODE_PROTRACKER ? "any" : c->p.mode == mode0 ? "old" : "new");
+	if (which == 0) {
+		/* xmp_set_player(XMP_PLAYER_MODE): accepted = new mode, refused = negative code and the old mode with the
+		 * six mode members as they were */
+		int restored = c->p.mode == mode0 && keep[0] == c->m.c4rate && keep[1] == c->m.quirk && keep[2] == c->m.flow_mode &&
+			       keep[3] == c->m.read_event_type && keep[4] == c->m.period_type && keep[5] == c->m.compare_vblank;
+		if (rc < 0 && !restored) {
+			printf("viol residue:set_player_mode the refused xmp_set_player(XMP_PLAYER_MODE) (rc=%d) left mode %d (was %d) "
+			       "or changed mode members\n", rc, c->p.mode, mode0);
+			viol++;
+		}
+		if (rc == 0 && c->p.mode != XMP_MODE_PROTRACKER) {
+			printf("viol rescan:mode xmp_set_player(XMP_PLAYER_MODE) returned 0 but the mode is %d\n", c->p.mode);
+			viol++;
+		}
+		if (rc > 0) {
+			printf("viol rc:positive:set_player the call returned %d\n", rc);
+			viol++;
+		}
+	}
+	if (scan_blocks != 1 || c->p.scan == NULL) {
+		printf("viol rescan:scan_block after the rescan p->scan is not one live block (%d)\n", scan_blocks);
+		viol++;
+	}
+	if (live_in_gen(gen) - (c->p.scan != scan0 ? scan_blocks : 0) > 0) {
+		report_live("residue", gen, tag);
+		viol++;
+	}
+	if (nseq1 < 1 || c->p.sequence < 0 || c->p.sequence >= nseq1) {
+		printf("viol rescan:sequence after the rescan sequence=%d num_sequences=%d (was %d)\n", c->p.sequence, nseq1, nseq0);
+		viol++;
+	}
+	/* the context keeps working: play on (or start), frame info, then everything is freed */
+	if (!playing)
+		xmp_start_player(ctx, 22050, 0);
+	for (i = 0; i < 6; i++) {
+		if (xmp_play_frame(ctx) < 0)
+			break;
+		xmp_get_frame_info(ctx, &fi);
+		pd = fnv1a(pd, fi.buffer, fi.buffer_size);
+		if (fi.sequence < 0 || fi.sequence >= nseq1) {
+			printf("viol rescan:sequence frame info reports sequence %d of %d\n", fi.sequence, nseq1);
+			viol++;
+			break;
+		}
+	}
+	if (isbase) {
+		base_n = n;
+		base_pd = pd;
+		if (which == 0)
+			base_old_pd = rescan_reference(src, playing);
+	} else if (which == 0 && rc < 0) {
+		/* the refused mode change: the context renders what an untouched context renders */
+		if (pd != base_old_pd) {
+			printf("viol reuse:rescan after the refused xmp_set_player(XMP_PLAYER_MODE) the context renders differently "
+			       "from one whose mode was never touched\n");
+			viol++;
+		}
+	} else if (pd != base_pd) {
+		/* the rescan does not change what is rendered: a failed one must not either */
+		printf("viol reuse:rescan after the faulted rescan the context renders differently\n");
+		viol++;
+	}
+	xmp_end_player(ctx);
+	xmp_release_module(ctx);
+	rel_evaluate("release", 1);
+	xmp_free_context(ctx);
+	viol += rel_problems;
+	rel_problems = 0;
+	src_finish(src);
+	leaks = live_in_gen(-1);
+	if (leaks > 0) {
+		report_live("leak", -1, tag);
+		viol++;
+	}
+	fd1 = count_fds();
+	if (viol > 0)
+		print_fault();
+	printf("%s op=rescan%d%s k=%d n=%d fired=%d rc=%d state=1 residue=0 leaks=%d fd=%d/%d tmp=0/0 own=na reuse=1 mdig=%016llx pdig=%016llx viol=%d\n",
+	       isbase ? "base" : "k", which, playing ? "p" : "", k, n, fired, rc < 0 ? rc : (fired && k >= 0 ? -1 : rc), leaks, fd0, fd1, 0ULL,
+	       (unsigned long long)pd, viol);
+	fflush(stdout);
+	(void)base_n;
+	return n;
+}
+
+static int cmd_rescan(int argc, char **argv)
+{
+	struct source src;
+	int which, playing, kfrom, kto, stride, k, n;
+	if (argc < 8)
+		return 2;
+	which = !strcmp(argv[2], "mode") ? 0 : !strcmp(argv[2], "cflags") ? 1 : 2;
+	playing = atoi(argv[3]);
+	src_init(&src, E_MEM, argv[4]);
+	kfrom = atoi(argv[5]);
+	kto = atoi(argv[6]);
+	stride = atoi(argv[7]);
+	if (stride < 1)
+		stride = 1;
+	printf("begin op=rescan-%s entry=mem file=%s\n", argv[2], argv[4]);
+	n = run_rescan_case(which, playing, &src, -1, 1);
+	printf("stride s=%d n=%d\n", stride, n);
+	if (kfrom >= 0) {
+		if (kto < 0 || kto > n - 1)
+			kto = n - 1;
+		for (k = kfrom; k <= kto; k += stride)
+			run_rescan_case(which, playing, &src, k, 0);
+	}
+	printf("end\n");
+	free(src.data);
 	return 0;
 }
 
@@ -1486,6 +2274,12 @@ int main(int argc, char **argv)
 		rc = cmd_tempfault(argc, argv);
 	else if (!strcmp(argv[1], "smix"))
 		rc = cmd_smix(argc, argv);
+	else if (!strcmp(argv[1], "rescan"))
+		rc = cmd_rescan(argc, argv);
+	else if (!strcmp(argv[1], "closefault"))
+		rc = cmd_closefault(argc, argv);
+	else if (!strcmp(argv[1], "smixfaults"))
+		rc = cmd_smixfaults(argc, argv);
 	fflush(stdout);
 	/* backstop: anything the tracker cannot see (FILE objects, libc blocks) */
 	if (__lsan_do_recoverable_leak_check())
